@@ -309,7 +309,9 @@ class Check:
             "wall_s": round(time.time() - self.t0, 2),
             "violations": len(self.violations) + (1 if (self.broken and not self.violations) else 0),
         }
-        d = VERIF / "evidence"
+        # evidence describes runs against /repo itself; runs against another checkout (SCRAPLI_REPO, used to evaluate
+        # seeded changes) must not overwrite it
+        d = VERIF / "evidence" if REPO.resolve() == Path("/repo") else Path("/tmp/verif-evidence-other-repo")
         d.mkdir(exist_ok=True)
         tmp = d / f"{self.pid}.json.tmp"
         tmp.write_text(json.dumps(ev, indent=1, default=str))
